@@ -314,6 +314,8 @@ fn size_strategy(block: u32, max: usize) -> BoxedStrategy<usize> {
         2 => Just((b + 1).min(max)),
         2 => (1usize..5).prop_map(move |k| (k * b).min(max)),
         4 => (0usize..=max),
+        // sizes that do not fit 16 bits (announced size is a 32-bit field)
+        1 => proptest::sample::select(vec![65_535usize, 65_536, 65_537, 70_000, 131_072]),
     ]
     .boxed()
 }
